@@ -8,6 +8,8 @@
 
 mod alloc;
 mod any;
+mod c10;
+mod c12;
 mod cfg;
 mod ctrl;
 mod explore;
@@ -17,6 +19,7 @@ mod ops;
 mod probe;
 mod run;
 mod track;
+mod twin;
 
 use frame::{Check, Tier};
 use serde_json::Value;
@@ -31,6 +34,9 @@ fn registry() -> Vec<Box<dyn Check>> {
         Box::new(ctrl::CtrlCheck { id: "C06" }),
         Box::new(ctrl::CtrlCheck { id: "C09" }),
         Box::new(ctrl::CtrlCheck { id: "C13" }),
+        Box::new(ctrl::CtrlCheck { id: "C10" }),
+        Box::new(ctrl::CtrlCheck { id: "C17" }),
+        Box::new(c12::C12),
     ]
 }
 
